@@ -46,3 +46,11 @@ func lemmaWIFRoundTrip(w *WIF) (*WIF, error) {
 	s := w.String()
 	return DecodeWIF(s)
 }
+
+// lemmaChecksumVerifies: a payload followed by the checksum createChecksum computes for it passes
+// verifyChecksum, for every prefix and payload (the code-word property; by linearity of the CashAddr
+// shift register, proved as a bit-vector lemma).
+func lemmaChecksumVerifies(prefix string, payload []byte) bool {
+	c := createChecksum(prefix, payload)
+	return verifyChecksum(prefix, cat(payload, c))
+}
